@@ -389,6 +389,49 @@ def h_dtype(ctx):
             for comp in range(2):
                 for u, v in zip(outs[0][comp], outs[1][comp]):
                     ctx.claim("VectorSpline2D.predict: integer-dtype coordinates give the float64 result", eq(u, v))
+        elif kind in ("spline_fit", "vector_fit"):
+            # integer-typed coordinates (concrete), data (symbolic integers) and weights in fit: what reaches the
+            # solver, and the predictions, are those of the float64 versions
+            di, df = _int_arrays(ctx, "d", 3)
+            d2i, d2f = _int_arrays(ctx, "dd", 3)
+            ci = (np.array([0, 3, 1], dtype=np.int64), np.array([0, 1, 4], dtype=np.int64))
+            cf = (ci[0].astype(float), ci[1].astype(float))
+            wi = np.array([1, 2, 3], dtype=np.int64)
+            q = (np.array([0.25, 2.5]), np.array([0.75, 3.0]))
+            modname = "verde.spline" if kind == "spline_fit" else "verde.vector"
+            mod = sys.modules[modname]
+            old = mod.least_squares
+            recs, preds = [], []
+            try:
+                for cc, dat, dat2, ww in ((ci, di, d2i, wi), (cf, df, d2f, wi.astype(float))):
+                    rec = _LsqRecorder(ctx.sym)
+                    mod.least_squares = rec
+                    if kind == "spline_fit":
+                        est = vd.Spline().fit(cc, dat, ww)
+                    else:
+                        est = vd.VectorSpline2D(mindist=1.0).fit(cc, (dat, dat2), (ww, ww))
+                    recs.append(rec)
+                    pr = est.predict(q)
+                    preds.append(list(pr) if isinstance(pr, tuple) else [pr])
+            finally:
+                mod.least_squares = old
+            ok = len(recs[0].calls) == 1 and len(recs[1].calls) == 1
+            ctx.claim("fit calls the solver once", ok)
+            if ok:
+                for k, what in enumerate(("design matrix", "data", "weights")):
+                    a, b = recs[0].calls[0][k], recs[1].calls[0][k]
+                    ctx.claim("integer-dtype coordinates, data and weights: same %s at the solver as with float64 inputs" % what, And(np.shape(a) == np.shape(b), And([eq(u, v) for u, v in zip(np.ravel(a), np.ravel(b))]) if np.shape(a) == np.shape(b) else False))
+                for pa, pb in zip(preds[0], preds[1]):
+                    for u, v in zip(np.ravel(pa), np.ravel(pb)):
+                        ctx.claim("integer-dtype fit inputs give the float64 predictions", eq(u, v))
+        elif kind == "linear_fit":
+            di, df = _int_arrays(ctx, "d", 3)
+            ci = (np.array([0, 3, 1], dtype=np.int64), np.array([0, 1, 4], dtype=np.int64))
+            cf = (ci[0].astype(float), ci[1].astype(float))
+            q = (np.array([1.25]), np.array([1.5]))
+            pi = vd.Linear().fit(ci, di).predict(q)
+            pf = vd.Linear().fit(cf, df).predict(q)
+            ctx.claim("Linear: integer-dtype inputs give the float64 result", eq(pi[0], pf[0]))
         elif kind == "kneighbors":
             di, df = _int_arrays(ctx, "d", npts)
             ci = (np.array([0, 3, 1], dtype=np.int64), np.array([0, 1, 4], dtype=np.int64))
@@ -515,5 +558,5 @@ HARNESSES = [
     Harness("query_layout", h_query_layout, lambda tier, seed: [{"kind": k} for k in ("trend", "spline", "vector", "kneighbors", "linear", "cubic", "chain", "vector_of")], bounds="every gridder class plus a Chain and a Vector fitted on the concrete 4-point layout with symbolic data; one 2x2 query in C order against Fortran order, transposed view, strided view, pandas Series and Python lists", stubs=["sklearn / cKDTree / scipy interpolators -> contract stubs"], extra_globals=_globals, engine={"oneshot": True}),
     Harness("permutation", h_permutation, _cfg_perm, bounds="concrete 4-point layout, symbolic data; 3 permutations (quick) / all 23 (thorough); Spline, VectorSpline2D, Trend, KNeighbors(mean, k=2/3, symbolic query in general position), Linear (pairing only)", stubs=["sklearn -> contracts", "cKDTree / interpolators -> contract stubs"], extra_globals=_globals, engine={"oneshot": True}, timeout_s=900),
     Harness("linearity", h_linearity, lambda tier, seed: [{"kind": k} for k in ("spline", "trend", "kneighbors", "vector")], bounds="concrete 4-point layout; symbolic scalars a, b and data vectors (written as J g + residual so that every data vector is covered)", stubs=["sklearn -> contracts", "cKDTree -> contract stub"], extra_globals=_globals, engine={"oneshot": True, "timeout_ms": 120000}, outside="Cubic (not linear); Linear's linearity is scipy's (OUT-LIB)", timeout_s=900),
-    Harness("integer_dtype", h_dtype, lambda tier, seed: [{"kind": k, "npts": 3 if (tier == "thorough" or not k.endswith("e_predict") and k != "vector_predict") else 2} for k in ("trend_predict", "trend_fit", "spline_predict", "vector_predict", "kneighbors")], bounds="3 points with symbolic integer coordinates/data in -50..50 carried by a modelled int64 dtype versus the same values as float64; symbolic parameters", stubs=["numpy dtype/casting model for np.empty/np.zeros(dtype=<input>.dtype) buffers (OUT-DTYPE)"], extra_globals=_globals, engine={"oneshot": True, "keyed_sqrt": True}),
+    Harness("integer_dtype", h_dtype, lambda tier, seed: [{"kind": k, "npts": 3 if (tier == "thorough" or not k.endswith("e_predict") and k != "vector_predict") else 2} for k in ("trend_predict", "trend_fit", "spline_predict", "vector_predict", "kneighbors", "spline_fit", "vector_fit", "linear_fit")], bounds="3 points with symbolic integer coordinates/data in -50..50 carried by a modelled int64 dtype versus the same values as float64; symbolic parameters; fits with concrete int64 coordinates and weights and symbolic integer data", stubs=["numpy dtype/casting model for np.empty/np.zeros(dtype=<input>.dtype) buffers (OUT-DTYPE)"], extra_globals=_globals, engine={"oneshot": True, "keyed_sqrt": True}),
 ]
